@@ -626,14 +626,13 @@ def InhOK (inh : Option Op) : Prop := inh = none ∨ inh = some .none
 /-- **the cell for two leaf / leaf-list nodes that meet**: `t` — exact for the instance `x0` of the first tree, literal metadata —
 met by `src` — exact for what `t` leaves, literal metadata.  The node of the cell is dropped and the instance is as before, or it
 is kept and acts on the instance like `t` followed by `src`. -/
-theorem term_cell {S : Schema} (K : KeyOrderOn S P) {o : MergeOpts}
-    (hq : o.defaults = true → Generated.Diff13.mergeDfltNeedsDeletedDflt = true) {cur sin : Option Op} (hcur : InhOK cur)
-    (hsin : InhOK sin) {t src : DNode} {x0 y0 : Option DNode} (htt : t.isTerm = true) (hst : src.isTerm = true)
+theorem term_cell_own {S : Schema} (K : KeyOrderOn S P) {o : MergeOpts}
+    (hq : o.defaults = true → Generated.Diff13.mergeDfltNeedsDeletedDflt = true) {cur sin : Option Op} {t src : DNode} {x0 y0 : Option DNode} (htt : t.isTerm = true) (hst : src.isTerm = true)
     (hm : matchP S src t = true) (htex : exactE S P cur x0 t = true) (hlt : litN t = true)
     (hsex : exactE S P sin y0 src = true) (hls : litN src = true)
     (hgx : ∀ x, x0 = some x → goodN S P x = true ∧ x.sid = t.sid) (hgy : ∀ y, y0 = some y → goodN S P y = true ∧ y.sid = src.sid)
     {cop sop : Op} (hcop : effOp t cur = some cop) (hsop : effOp src sin = some sop) (hy : y0.map normN = tEff t cop)
-    (hsafe : safeP S cur sin t src = true) :
+    (hsafe : safeP S cur sin t src = true) (hot' : ∃ op, ownOp t = some op) (hos' : ∃ op, ownOp src = some op) :
     ∃ m, mergeCell S o sop t cop src = .ok (m, false) ∧ Dom S P m ∧ m.isTerm = true ∧ m.sid = t.sid ∧
       (∀ x, matchP S m x = matchP S t x) ∧ (∃ op, ownOp m = some op) ∧
       (((isRedundant S none m).2 = true ∧ tEff src sop = x0.map normN) ∨
@@ -641,8 +640,8 @@ theorem term_cell {S : Schema} (K : KeyOrderOn S P) {o : MergeOpts}
   obtain ⟨htd, _, htk⟩ := exactE_base htex
   obtain ⟨hsd, _, _⟩ := exactE_base hsex
   have hss : t.sid = src.sid := matchP_sid hm
-  obtain ⟨cop', hot⟩ := own_of_exact_lit hcur htt htex hlt
-  obtain ⟨sop', hos⟩ := own_of_exact_lit hsin hst hsex hls
+  obtain ⟨cop', hot⟩ := hot'
+  obtain ⟨sop', hos⟩ := hos'
   have hc1 : cop' = cop := by have := effOp_own' hot cur; rw [hcop] at this; exact (Option.some.inj this).symm
   have hc2 : sop' = sop := by have := effOp_own' hos sin; rw [hsop] at this; exact (Option.some.inj this).symm
   subst hc1 hc2
@@ -695,6 +694,53 @@ theorem term_cell {S : Schema} (K : KeyOrderOn S P) {o : MergeOpts}
           simp [matchP, isLL, instMatch, sameInst, h2, hk, h1, DNode.sid, DNode.val] at hm
           exact hm.symm
   exact cell_concl (fx := fx) K x0 rfl htd htt htk hss.symm hkv hcell
+
+/-- the cell for two leaf / leaf-list nodes that meet, the source node possibly a copy inside a DELETED subtree (no metadata,
+operation `delete` inherited): `lyd_diff_merge_delete` reads of the source node the schema node, the value and the default flag only -/
+theorem term_cell {S : Schema} (K : KeyOrderOn S P) {o : MergeOpts}
+    (hq : o.defaults = true → Generated.Diff13.mergeDfltNeedsDeletedDflt = true) {cur sin : Option Op} {t src : DNode}
+    {x0 y0 : Option DNode} (htt : t.isTerm = true) (hst : src.isTerm = true)
+    (hm : matchP S src t = true) (htex : exactE S P cur x0 t = true) (hlt : litN t = true)
+    (hsex : exactE S P sin y0 src = true) (hls : litN src = true)
+    (hgx : ∀ x, x0 = some x → goodN S P x = true ∧ x.sid = t.sid) (hgy : ∀ y, y0 = some y → goodN S P y = true ∧ y.sid = src.sid)
+    {cop sop : Op} (hcop : effOp t cur = some cop) (hsop : effOp src sin = some sop) (hy : y0.map normN = tEff t cop)
+    (hsafe : safeP S cur sin t src = true) (hot' : ∃ op, ownOp t = some op)
+    (hos' : (∃ op, ownOp src = some op) ∨ (src.metas = [] ∧ sop = .delete)) :
+    ∃ m, mergeCell S o sop t cop src = .ok (m, false) ∧ Dom S P m ∧ m.isTerm = true ∧ m.sid = t.sid ∧
+      (∀ x, matchP S m x = matchP S t x) ∧ (∃ op, ownOp m = some op) ∧
+      (((isRedundant S none m).2 = true ∧ tEff src sop = x0.map normN) ∨
+        ((isRedundant S none m).2 = false ∧ Acts S P fx cur m (x0.map normN) (tEff src sop))) := by
+  rcases hos' with hos' | ⟨hmeta, rfl⟩
+  · exact term_cell_own K hq htt hst hm htex hlt hsex hls hgx hgy hcop hsop hy hsafe hot' hos'
+  · cases src with
+    | inner => simp [DNode.isTerm] at hst
+    | term s f2 ms v2 =>
+      simp only [DNode.metas] at hmeta
+      subst hmeta
+      obtain ⟨hsd, _, hsk⟩ := exactE_base hsex
+      obtain ⟨y, rfl, hdq, _⟩ := exactE_delete hsex hsop
+      let src' : DNode := .term s f2 [("operation", bs "delete")] v2
+      have hown' : ownOp src' = some .delete := ownOp_of_metas src' .delete rfl
+      have hsd' : Dom S P src' := ⟨hsd.nuo, hsd.ndi, hsd.typed, by
+        rw [K.pinv.pcongr (x := src') (y := .term s f2 [] v2) rfl rfl rfl]; exact hsd.sat⟩
+      have hsex' : exactE S P none (some y) src' = true := by
+        have hd : domB S P src' = true := domB_iff.mpr hsd'
+        have hk : S.isKey s = false := hsk
+        simp only [src', exactE, effOp_own' hown' none, Bool.and_eq_true]
+        refine ⟨⟨⟨hd, by simp [metaOKB, DNode.metas]⟩, by simp [hk]⟩, ?_⟩
+        have hn := (dataEq_iff_norm y (.term s f2 [] v2)).mp hdq
+        exact (dataEq_iff_norm y (.term s f2 [("operation", bs "delete")] v2)).mpr (by rw [hn]; rfl)
+      have hm' : matchP S src' t = true := by
+        rw [matchP_of_same_data (d := .term s f2 [] v2) (d' := src') hsd.ndi rfl rfl rfl]; exact hm
+      have hsafe' : safeP S cur none t src' = true := by
+        have e1 : effOp (DNode.term s f2 [("operation", bs "delete")] v2) none = some .delete := effOp_own' hown' none
+        simp only [safeP, hsop] at hsafe
+        show safeP S cur none t (.term s f2 [("operation", bs "delete")] v2) = true
+        simp only [safeP, e1]
+        simpa using hsafe
+      obtain ⟨m, hcell, rest⟩ := term_cell_own (fx := fx) K hq htt (show src'.isTerm = true from rfl) hm' htex hlt hsex'
+        (by simp [src', litN, litMeta]) hgx hgy hcop (effOp_own' hown' none) hy hsafe' hot' ⟨_, hown'⟩
+      exact ⟨m, hcell, rest⟩
 
 end LyModel.Diff.K13
 
